@@ -62,6 +62,7 @@ struct Fibre {
 	const char *opname;
 	int op_sleeps, op_atomics, op_idle_jumps;
 	int total_sleeps;
+	int alloc_failures, no_write_window;
 };
 
 struct Policy {
@@ -113,6 +114,7 @@ struct G {
 	char panic_msg[200];
 	long long run_index; uint64_t base_seed;
 	int alloc_failures; int no_write_window;
+	int64_t plain_since_sched;
 	int tracing; FILE *trace_fp;
 };
 extern G g;
